@@ -310,20 +310,36 @@ class Run(object):
         args = self.probe_args
         m_inst = len(j['numbered'])
         for k in range(n * n_ans):
+            try:
+                if self.judge_sample(i, k, A, S, handed, args, m_inst, n, n_ans, desc):
+                    break
+            except (KeyError, IndexError) as err:
+                # the recorded history lacks a value the oracle needs: itself a completeness failure
+                self.violate('complete', i, 'sample %d: recorded history has no value for %s ; %s' % (k, err, desc))
+                break
+        return o
+
+    def judge_sample(self, i, k, A, S, handed, args, m_inst, n, n_ans, desc):
+        j = self.j
+        if True:
             if A[k] != S[k]:
                 self.violate('consistent', i, 'sample %d: author side saw %s, student side saw %s ; %s'
                              % (k, A[k], S[k], desc))
-                break
+                return True
             row = dict(zip(args, [self.num(x) for x in A[k]]))
             vals = {}
             for v in j['ind']:
+                if len(handed.get('smp.' + v, ())) <= k:
+                    self.violate('consistent', i, "sample %d: %s=%r but its own sampling set was asked only %d times ; %s"
+                                 % (k, v, row[v], len(handed.get('smp.' + v, ())), desc))
+                    continue
                 want = self.num(handed['smp.' + v][k])
                 if row[v] != want:
                     self.violate('consistent', i, 'sample %d: %s=%r but its sampler handed out %r ; %s'
                                  % (k, v, row[v], want, desc))
                 vals[v] = row[v]
             if m_inst:
-                window = sorted(self.num(x) for x in handed['smp.a'][k * m_inst:(k + 1) * m_inst])
+                window = sorted(self.num(x) for x in handed.get('smp.a', [])[k * m_inst:(k + 1) * m_inst])
                 got = sorted(row[nm] for nm in j['numbered'])
                 if got != window:
                     self.violate('consistent', i, 'sample %d: numbered instances %s have values %s, base '
@@ -343,7 +359,7 @@ class Run(object):
                     self.violate('consistent', i, 'sample %d: dependent %s = %s evaluates to %r on this '
                                  "sample's values, but %r was used ; %s"
                                  % (k, d['name'], self.dep_formula(d), want, got, desc))
-                    break
+                    return True
                 D = self.rec.get('probeD%d' % idx)
                 if D is not None:
                     if len(D) != n * n_ans:
@@ -357,7 +373,7 @@ class Run(object):
                                          'values are %s ; %s' % (k, d['name'], saw, exp, desc))
             if len(j['deps']) >= 3:
                 self.bump(self.probes, 'dependency chain of 3+ resolved')
-        return o
+        return False
 
     def run(self):
         log, sig = [], []
